@@ -193,6 +193,13 @@ def random_scripts(rng, n, maxlen=200):
         for form in ([None, 1, 2, 4] if L <= 75 else [1, 2, 4] if L <= 255 else [2, 4] if L <= 65535 else [4]):
             pd = btc.push(d, form)
             out += [b'\x76\xa9' + pd + b'\x88\xac', b'\xa9' + pd + b'\x87', pd + b'\xac'][(L + (form or 0)) % 3:][:2]
+    # Namecoin name operations (OP_1/2/3 = name_new/firstupdate/update, arguments, drops) in front of an ordinary template:
+    # to a template matcher these are just other tokens
+    for tpl_ in (btc.p2pkh(h), btc.p2sh(h), btc.p2pk(k), b'\x6a' + btc.push(b'name')):
+        out += [b'\x51' + btc.push(rng.randbytes(20)) + b'\x6d' + tpl_,
+                b'\x52' + btc.push(b'd/example') + btc.push(rng.randbytes(8)) + btc.push(b'{}') + b'\x6d\x6d' + tpl_,
+                b'\x53' + btc.push(b'd/example') + btc.push(b'{"ip":"1.2.3.4"}') + b'\x6d\x75' + tpl_,
+                b'\x53' + btc.push(b'd/x', 1) + btc.push(b'v', 2) + b'\x6d\x75\x61' + tpl_, b'\x75' + tpl_, b'\x6d' + tpl_]
     # scripts beyond Bitcoin's 10 000-byte script size limit are still just scripts for a parser
     out += [b'\x51' * 10001, b'\x6a' + btc.push(rng.randbytes(10100)), b'\x51' + btc.push(rng.randbytes(10050)) + b'\x51\xae',
             b'\x75' * 10000, b'\x75' * 20000]
